@@ -7,8 +7,8 @@ import PoseVerif.Proofs.NormLift
 apply a coordinate-wise map; both therefore send bodies that differ only under the mask to bodies that differ only under the mask, with the same statistics.
 Any scalar type, no law of arithmetic.
 -/
-namespace PoseVerif.Props.C09
-open PoseVerif
+namespace PoseVerif.Props.C09Norm
+open PoseVerif PoseVerif.Props.C09
 variable {S : Type}
 
 /-- the masked column of one coordinate of one point is the same for related bodies -/
@@ -168,4 +168,4 @@ theorem runN_ni (be : Backend) (sc : Scalar S) {isZero : S → Bool} [Inhabited 
     simp only [runNOps]
     cases e1 : op.apply be sc isZero b₁ <;> cases e2 : op.apply be sc isZero b₂ <;> rw [e1, e2] at h1 <;> simp_all [OptRel]
 
-end PoseVerif.Props.C09
+end PoseVerif.Props.C09Norm
